@@ -64,3 +64,14 @@ def c20_spokes_long_blip(case, result):
     if blips and nsub and max(blips) > nsub:
         return "C20/spokes-blip-longer-than-subpulse"
     return None
+
+
+@classifier("C14")
+def c14_cg_singular_normal(case, result):
+    """LinearLeastSquares with ConjugateGradient (also the default solver) on an
+    underdetermined system with lamda = 0: A^H A is singular, CG reaches the optimum and, pushed
+    on by max_iter with tol = 0, divides round-off by round-off and leaves it again."""
+    if case.get("gen") == "lls-wide" and case.get("solver") in (None, "ConjugateGradient") \
+            and str(result.get("mech", "")).startswith("wide-suboptimal:"):
+        return "C14/cg-singular-normal-operator-diverges"
+    return None
